@@ -188,8 +188,18 @@ where
 {
     fn format_response_data(&self, formatter: &mut dyn Formatter) -> Result<()> {
         let mnemonic = self.mnemonic();
-        let short_form = mnemonic.split(|c| !c.is_ascii_uppercase()).next().unwrap();
-        formatter.push_str(short_form)
+        let short_form = self.short_form();
+        formatter.push_str(short_form)?;
+        if short_form.len() < mnemonic.len() {
+            // Keep the numeric suffix so that the same variant is selected, `ASCii2` => `ASC2`
+            let digits = mnemonic
+                .iter()
+                .rev()
+                .take_while(|c| c.is_ascii_digit())
+                .count();
+            formatter.push_str(&mnemonic[mnemonic.len() - digits..])?;
+        }
+        Ok(())
     }
 }
 
